@@ -200,19 +200,7 @@ impl Check for C14 {
         cov.insert("worst_misalignment_over_tolerance".into(), json!(w));
     }
     fn replay(&self, replay: &Value) -> Result<(bool, String), String> {
-        let cfg = Cfg::from_json(&replay["cfg"])?;
-        let mut acc = Acc { evals: 0, nontrivial: 0, found: vec![], outcomes: Default::default(), worst: 0.0 };
-        let scale = (1.0f64).max(1.0 / cfg.nominal_ratio()) as usize;
-        let base = 300 * scale + 2 * cfg.filter_len();
-        for n0 in [base, base + 1, base + 700 * scale] {
-            one::<f64>(&mut acc, &cfg, n0, None)?;
-        }
-        recipe(&mut acc, &cfg)?;
-        let mut log = String::new();
-        for f in &acc.found {
-            log.push_str(&format!("    VIOLATES C14 [{}] {} | {}\n", f["sig"].as_str().unwrap_or(""), f["point"].as_str().unwrap_or(""), f["detail"].as_str().unwrap_or("")));
-        }
-        Ok((!acc.found.is_empty(), log))
+        crate::frame::replay_by_item(self, replay)
     }
     fn rule(&self, _tier: Tier) -> String {
         "full product of 7 types x ratio / rate pair x filter length / degree / requested FFT chunk (x sub_chunks) x chunk size x 6 event positions (incl. chunk boundary +-1): |centroid(out) - (n*ratio + output_delay())| <= max(1,ratio)+1; plus the README recipe executed literally on one clip per configuration. Non-trivial = pulse found in the output".into()
